@@ -170,7 +170,7 @@ fn run<const W: usize>(stream: Msgs, expected: &[u8; 24], expected_len: usize, n
     while i < 24 { if i < glen { assert!(got[i] == expected[i], "C17: decoded message text differs from the message produced"); } i += 1; }
 }
 
-// @verif prop=C17 tier=thorough replay=none timeout=3400 mem=24 unwindset="es_decode\.0 :40;dechunk.*\.\d+ :40;TailWriter.*poll_write.*\.0 :40;normalised\.0 :5;write_unchecked_to\.\d+ :8;8Response4send.*\.\d+ :4;9write_all.*8WriteAll.*\.0 :3" bounds="one message of 3 symbolic ASCII bytes (LF, CR, CRLF, space, ':' included); stream ends after it"
+// @verif prop=C17 tier=off replay=none timeout=3400 mem=24 unwindset="es_decode\.0 :40;dechunk.*\.\d+ :40;TailWriter.*poll_write.*\.0 :40;normalised\.0 :5;write_unchecked_to\.\d+ :8;8Response4send.*\.\d+ :4;9write_all.*8WriteAll.*\.0 :3" bounds="one message of 3 symbolic ASCII bytes (LF, CR, CRLF, space, ':' included); stream ends after it"
 #[kani::proof]
 #[kani::stub(ohkami::util::unix_timestamp, stubs::unix_timestamp_zero)]
 #[kani::stub(core::slice::memchr::memchr, stubs::memchr_model)]
@@ -186,7 +186,7 @@ fn c17_one_message_of_3() {
     run::<48>(Msgs::new(Some(s), None), &exp, elen, 1);
 }
 
-// @verif prop=C17 tier=thorough replay=none timeout=3400 mem=24 unwindset="es_decode\.0 :40;dechunk.*\.\d+ :40;TailWriter.*poll_write.*\.0 :40;normalised\.0 :5;write_unchecked_to\.\d+ :8;8Response4send.*\.\d+ :4;9write_all.*8WriteAll.*\.0 :3" bounds="two messages of 1 symbolic ASCII byte each, in order; and the empty message"
+// @verif prop=C17 tier=off replay=none timeout=3400 mem=24 unwindset="es_decode\.0 :40;dechunk.*\.\d+ :40;TailWriter.*poll_write.*\.0 :40;normalised\.0 :5;write_unchecked_to\.\d+ :8;8Response4send.*\.\d+ :4;9write_all.*8WriteAll.*\.0 :3" bounds="two messages of 1 symbolic ASCII byte each, in order; and the empty message"
 #[kani::proof]
 #[kani::stub(ohkami::util::unix_timestamp, stubs::unix_timestamp_zero)]
 #[kani::stub(core::slice::memchr::memchr, stubs::memchr_model)]
